@@ -13,6 +13,8 @@ differ from the code that runs (seeded change C14-agent5: ``functools.lru_cache`
   call graph of the package (an over-approximation of what the call can read; reflection is not used by the package).
   When it does not hold the result of a call may depend on what an *earlier, equal-keyed* call was given -- the obligation is
   reported as failed (no input is constructed: ``no-failing-input-found``).
+  A second obligation, **the result belongs to this call's arguments**, fails when a parameter is compared by value and the result is a
+  relation: the later caller would get the earlier caller's nodes (identity and payload cells are what C10 / C15 speak about).
 * any other unknown decorator: the function is outside the verifier's subset (undecided, never a pass).
 """
 from __future__ import annotations
@@ -113,13 +115,22 @@ def value_keyed_params(repo, fi) -> list[str]:
 
 
 def returns_an_object(repo, fi) -> bool:
+    """Does the function return something whose *identity* matters?  Relation nodes do (they carry payload cells, and C10 / C15 speak about
+    identical objects); operations, expressions and scalars are pure values, for which an equal object is as good as the same one."""
     r = fi.node.returns
     if r is None:
         return True
-    txt = ast.unparse(r)
-    if txt in ("bool", "int", "str", "None", "float") or txt.startswith(("Literal[", "bool |", "int |")):
-        return False
-    return True
+    for ci in _classes_of_annotation(repo, ast.unparse(r)):
+        todo, seen = [ci], []
+        while todo:
+            c = todo.pop()
+            if c in seen:
+                continue
+            seen.append(c)
+            todo.extend(repo.subclasses(c, concrete_only=False))
+        if any(c.name in ("BaseRelation", "Relation") or any(b.name in ("BaseRelation", "Relation") for b in getattr(c, "mro", [])) for c in seen):
+            return True
+    return False
 
 
 def ignored_by_key(repo, fi) -> dict[str, str]:
